@@ -443,8 +443,13 @@ func errStr(err error) string {
 	if err == nil {
 		return "ok"
 	}
-	if err == raft.ErrProposalDropped {
+	switch err {
+	case raft.ErrProposalDropped:
 		return "dropped"
+	case raft.ErrStepPeerNotFound:
+		return "err:peer"
+	case raft.ErrStepLocalMsg:
+		return "err:local"
 	}
 	return "err:" + err.Error()
 }
@@ -585,6 +590,7 @@ func (c *Cluster) doLocal(s Step) bool {
 	case "Propose":
 		data := payload(s.Pid, s.Psz)
 		ev.A.Psz = len(data)
+		ev.A.Ents = jEntries([]*pb.Entry{{Data: data}})
 		p = call(func() { err = n.RN.Propose(data) })
 	case "ProposeConfChange":
 		var cc pb.ConfChangeI
@@ -597,8 +603,12 @@ func (c *Cluster) doLocal(s Step) bool {
 				panic("harness: " + perr.Error())
 			}
 		}
+		if typ, data, merr := pb.MarshalConfChange(cc); merr == nil {
+			ev.A.Ents = jEntries([]*pb.Entry{{Type: typ.Enum(), Data: data}})
+		}
 		p = call(func() { err = n.RN.ProposeConfChange(cc) })
 	case "ReadIndex":
+		ev.A.Ents = jEntries([]*pb.Entry{{Data: readCtx(s.Rid)}})
 		p = call(func() { n.RN.ReadIndex(readCtx(s.Rid)) })
 	case "TransferLeader":
 		p = call(func() { n.RN.TransferLeader(s.To) })
